@@ -229,14 +229,15 @@ def _np_eye(it, args, kw):
 
 ln = z3.Function('ln', z3.RealSort(), z3.RealSort())
 exp = z3.Function('exp', z3.RealSort(), z3.RealSort())
-LOG_OBLIGATION = ['numpy.log.domain']     # obligation name used for np.log applications (set by the contract)
+LOG_OBLIGATION = ['numpy.log.domain']     # obligation name used for np.log applications (set by the contract; None: no obligation)
 
 
 def _np_log(it, args, kw):
     def log1(it_, x):
         x = xl(x)
         pos = z3.And(xreal.is_fin(x), xreal.r(x) > 0)
-        it_.run.oblige(LOG_OBLIGATION[0], pos, 'np.log')
+        if LOG_OBLIGATION[0] is not None:
+            it_.run.oblige(LOG_OBLIGATION[0], pos, 'np.log')
         # log(0) = -inf, log(negative) = nan, log(+inf) = +inf, log(nan) = nan
         return z3.If(pos, xreal.fin(ln(xreal.r(x))),
                      z3.If(xreal.is_zero(x), xreal.ninf, z3.If(xreal.is_pinf(x), xreal.pinf, xreal.nan)))
